@@ -13,6 +13,7 @@ var typeIDs = func() map[reflect.Type]int {
 		m[RType(i)] = i
 	}
 	m[RType(TSl)] = TSl
+	m[RType(TVoid)] = TVoid
 	return m
 }()
 
